@@ -1,10 +1,10 @@
 (* C02 -- Every assignment is a well-formed block of one eligible ClusterCIDR.
-   Proved here for every state satisfying the structural invariant MapInv (preserved by every
-   controller call on well-formed inputs: Inv_proofs.v): the CIDRs of an assignment are reserved by
+   Proved here for every state satisfying the structural invariant MapInv -- which holds in EVERY
+   world reachable from the initial one by well-formed operations (World_proofs.v; last two theorems): the CIDRs of an assignment are reserved by
    [prioritized_try] in ONE entry, IPv4 first then IPv6, each a well-formed CIDR of that family that
    overlaps no pod CIDR of a cached node; the PATCH goes to the processed node only; a failed or
    partial reservation never reaches a PATCH. *)
-From NIPAM Require Import Sys Alloc_proofs Inv_proofs Pool_proofs.
+From NIPAM Require Import Sys Alloc_proofs Inv_proofs Pool_proofs World_proofs.
 Open Scope N_scope.
 
 (* what allocate_cidr hands out is a well-formed CIDR of the requested family *)
@@ -57,3 +57,27 @@ Theorem C02_invariant_preserved :
   sync_node po lab canp apisame held m cached reread outs = (m', r, fx) -> MapInv m'.
 Proof. exact sync_node_inv. Qed.
 Print Assumptions C02_invariant_preserved.
+
+(* the invariant is not a hypothesis about the starting state: it holds in every world reachable from the
+   initial world by any list of well-formed operations (any schedule, faults, crashes, restarts, relists) *)
+Theorem C02_invariant_holds_in_every_reachable_state :
+  forall po lab ops m, Forall wf_op ops -> w_ctl (run po lab init_world ops) = Some m -> MapInv m.
+Proof. exact reachable_state_inv. Qed.
+Print Assumptions C02_invariant_holds_in_every_reachable_state.
+
+(* hence every PATCH of every step of every such history carries well-formed CIDRs *)
+Theorem C02_every_patch_of_every_history_is_wellformed :
+  forall po lab ops o w' ob, Forall wf_op ops -> step po lab (run po lab init_world ops) o = (w', ob) ->
+  forall nm cs out, In (FxPatch nm cs out) (ob_fx ob) -> Forall wf_cidr cs.
+Proof.
+  intros po lab ops o w' ob H. apply step_patch_wf. apply run_winv; [apply winv_init|exact H].
+Qed.
+Print Assumptions C02_every_patch_of_every_history_is_wellformed.
+
+Example C02_wf_ops_nonvacuous :
+  Forall wf_op [UCreateCC (mkCCObj [99] (FOk (mkCidr V4 167772160 24)) FEmpty 4 (Some []) [] false 1 0 0);
+                Construct None None []; StartInformers; UCreateNode [110] [] []; DeliverNode; ProcNode [POk]].
+Proof.
+  repeat constructor; cbn; try discriminate; try (intros ? E; discriminate E).
+  all: try (unfold wf_cidr; cbn; repeat split; try lia; try reflexivity).
+Qed.
